@@ -291,7 +291,9 @@ def run_case(case, ctx):
             # state left behind by an earlier update_predict: evaluated data stay in the remembered series while the cutoff was
             # restored, so a refit inside this run trains on (and moves the cutoff to) data ahead of the window (known finding)
             ahead = max(mem) > cutoff
-            pre = "stale-memory-ahead-of-cutoff:" if ahead else ""
+            # (plain window forecasters evaluated without parameter updates read the window that ends at each cutoff whatever lies
+            # beyond it in memory: they are judged normally also in that state)
+            pre = "stale-memory-ahead-of-cutoff:" if (ahead and (up or spec[0] == "theta" or zoo.children(spec))) else ""
             if spec[0] in ("grid", "rand"):
                 up = False
             # a cv horizon reaching back to observed time points (in-sample steps): only forecasters that implement in-sample prediction
@@ -300,6 +302,9 @@ def run_case(case, ctx):
                 fh = fh_ins
                 sww = True
                 wl = max(wl, 2)
+                if ahead:
+                    # in-sample steps are forecast by walking the cutoff back over the remembered series, which is the stale one here
+                    pre = "stale-memory-ahead-of-cutoff:"
             seg_t = list(range(nxt, nxt + size))
             seg = pd.Series([vals[t] for t in seg_t], index=pd.RangeIndex(seg_t[0], seg_t[-1] + 1))
             hmax = max(fh)
@@ -320,9 +325,34 @@ def run_case(case, ctx):
             c_before = f.cutoff
             if up:
                 chain_static[0] = False
+            twin = None
+            if not up and not zoo.children(spec) and fh_outer == fh:
+                try:
+                    twin = pickle.loads(pickle.dumps(f))
+                except Exception:  # noqa
+                    twin = copy.deepcopy(f)
             ok, res = ctx.call(pre + "update_predict:exception:" + spec[0], f.update_predict, seg.copy(), cv=mk(), update_params=up)
             if not ok:
                 return
+            if twin is not None and (fh_known or not need_fit or fh_in == "fit"):
+                # a rolling evaluation without parameter updates leaves the forecaster where it was: same cutoff, same fitted parameters,
+                # hence the same forecast as a copy that never saw the evaluated stretch
+                try:
+                    pb = twin.predict(fh if not need_fit else None)
+                except Exception as e:  # noqa
+                    pb = None
+                    ctx.tag("twin-predict-failed:" + type(e).__name__)
+                if pb is not None:
+                    okp, pa = ctx.call("predict:exception-after-update_predict:" + spec[0], f.predict, fh if not need_fit else None)
+                    if okp:
+                        # ThetaForecaster's drift term counts the remembered observations (len(_y)): the evaluated stretch left in memory
+                        # shifts it - the remembered-data-not-restored mechanism of the known finding, not a window read from the wrong place
+                        mempre = "stale-memory-ahead-of-cutoff:" if spec[0] == "theta" else ""
+                        ctx.check("update_predict.cutoff-restored", [int(v) for v in pa.index] == [int(v) for v in pb.index] and _same(pa.values, pb.values),
+                                  mempre + "update_predict:later-forecast-not-made-from-restored-cutoff:" + spec[0],
+                                  "after update_predict(update_params=False) predict differs from a copy that did not run the evaluation: the forecast is not "
+                                  "made from the window that ends at the restored cutoff", got=pa.values.tolist()[:6], expected=pb.values.tolist()[:6], cutoff=int(c_before))
+                        ctx.tag("predict-after-update_predict-compared")
             ref_preds, ref_cutoffs = [], []
             failed = False
             for win, _ in mk().split(seg):
